@@ -42,4 +42,20 @@ CLAIMED["C06"] = {
     "text": "Kernel-checked: any two answers that pass the (proved exact) judge have the same status whatever the configuration (status_config_invariant); the program of a query depends on (solver, encoder, framework, query) only (query_history_invariant); outcomes depend on replies only, not on solver numbering or earlier calls (outcome_world_invariant). Tied to the code by query sequences on one solver object with trace comparison, all encodings x certificate flag, the external backend (kissat through ExternalSatSolver), and a before/after dump of the framework.",
     "note": "Trusted: Lean kernel; kissat and CaDiCaL assumed sound and complete; harness. 'Querying never modifies the framework' is additionally guaranteed by Rust's type system (&AAFramework) and checked by the dump.",
     "technique": "Lean 4 proofs + differential runs across configurations and backends"}
+CLAIMED["C11"] = {
+    "text": "Relations between runs of the real solvers on frameworks of 20-300 arguments (argument permutation, attack-line permutation/duplication, disjoint union with an unrelated component incl. the ST rule, cross-semantics consistency GR<=ID<=PR, DS=>DC, ST=SST=STG when a stable extension exists); small frameworks additionally judged by the proved deciders. Kernel-checked so far: skeptical_implies_credulous at spec level.",
+    "note": "PARTIAL: the spec-level theorems ext_iso, ext_atts_perm_dup, ext_disjoint_union and sem_consistency (that the textbook semantics satisfy these relations for all frameworks) are in progress; the relations themselves are checked on every run on the real code. Trusted: Lean kernel, harness.",
+    "technique": "metamorphic differential runs + Lean 4 spec-level theorems (in progress)"}
+CLAIMED["C13"] = {
+    "text": "Byte-level Lean models of both readers (BufRead::lines, UTF-8 validation, split_whitespace, parse::<isize>/<usize>, the four Aspartix regexes as deterministic scanners with \\s/\\d tables regenerated from the vendored regex-syntax). Kernel-checked: totality, error finality, and one rejection theorem per ill-formedness class of the property (invalid UTF-8, missing/bad header, content after blank line, wrong arity, bad index, argument after attack, undeclared argument, syntax error). Tied to the code by differential runs on grammar-generated files (with expected content), ill-formed files and byte/token mutations under catch_unwind.",
+    "note": "PARTIAL: the acceptance direction (every well-formed file is read to exactly its declared content, for all layouts) is checked on generated files with known expected content, its Lean proof (read_render) is in progress. Trusted: Lean kernel, regex crate modelled by scanners, harness.",
+    "technique": "Lean 4 model + rejection theorems + byte-level differential fuzzing"}
+CLAIMED["C14"] = {
+    "text": "Kernel-checked: both extension formats parse back to exactly the label list, empty list included (iccma_extension_roundtrip, apx_extension_roundtrip), status lines are exactly YES/NO, the witness is exactly one line. Tied to the code: bytes of AspartixWriter::write_framework and of the response writers compared with the Lean writer model on frameworks reached by random histories; real reader applied to real writer output compared with the original.",
+    "note": "PARTIAL: the framework round trip readApx(writeApx s) = s is checked by execution on every generated history (model and implementation), its Lean proof is in progress. Trusted: Lean kernel, harness.",
+    "technique": "Lean 4 proofs of the answer formats + differential byte comparison"}
+CLAIMED["C19"] = {
+    "text": "Lean model of propagate / compute_classes / reduce_af mirrored step by step; kernel-checked: the judging criterion 'same membership in all complete extensions' is exact and an equivalence (sameComplete_exact, sameComplete_equiv). Every run compares classes, both mappings and the reduced framework with the model and judges partition, inverse maps and indistinguishability of every merged pair.",
+    "note": "PARTIAL: propagate_sound / classes_sound (the algorithm only merges indistinguishable arguments, for all frameworks) are in progress; at present that statement is established by the exhaustive/random runs judged with the exact criterion. Trusted: Lean kernel, harness.",
+    "technique": "Lean 4 model + exact judge + differential correspondence"}
 NOT_APPLICABLE = {}
